@@ -1,7 +1,7 @@
 (* C07: every observed probe reported exactly once.
    Statements only: each theorem restates the full type of a lemma proved in coq/proofs and is closed by
    `exact`; Print Assumptions beneath.  Regenerate with bin/genprops.py after a lemma changes. *)
-From LLTD Require Import BlockFun PropsQuery BufferLevel.
+From LLTD Require Import BlockFun PropsQuery BufferLevel QueryHistory.
 
 Theorem C07_record_rule :
   forall (ctx : N) (c : pcfg) (g : gcfg) (mtu : N) (s : ist) (buf : list N) (h : hdr),
@@ -161,3 +161,41 @@ Theorem C07_record_buffer_level :
   else see s) /\ BlockSafe.ledger_reg bl bb r' w'.
 Proof. exact C07_buffer_level_record. Qed.
 Print Assumptions C07_record_buffer_level.
+
+Theorem C07_conservation_over_any_history_buffer_level :
+  forall (junk : N) (cfgs : N -> pcfg) (g : gcfg) (mtus : N -> N),
+  SystemRefinement.cfgs_nominal cfgs mtus ->
+  forall (l : list (N * list N)) (r : registry) (w : world) (bl : nat) (bb ctx : N),
+  Forall (SystemRefinement.frame_len cfgs) l ->
+  BlockSafe.ledger_reg bl bb r w ->
+  Forall bytes_ok (Isolation.frames_of ctx l) ->
+  Forall not_topo_reset (Isolation.frames_of ctx l) ->
+  types_ok (see (SystemRefinement.reg_state r ctx)) ->
+  exists (r' : registry) (w' : world) (tagged : list (N * action)) (delivered : list obs),
+  BlockSafe.run_frames no_fail no_fail junk cfgs g r (SystemRefinement.as_fops l) w = Ok r' w' /\
+  w_trace w' = rev (map snd tagged) ++ w_trace w /\
+  Isolation.acts_of ctx tagged =
+  snd
+  (f_run ctx (cfgs ctx) g (mtus ctx) (SystemRefinement.reg_state r ctx) (Isolation.frames_of ctx l)) /\
+  SystemRefinement.reg_state r' ctx =
+  fst
+  (f_run ctx (cfgs ctx) g (mtus ctx) (SystemRefinement.reg_state r ctx) (Isolation.frames_of ctx l)) /\
+  answers ctx (Isolation.frames_of ctx l) (Isolation.acts_of ctx tagged) delivered /\
+  Permutation.Permutation (delivered ++ see (SystemRefinement.reg_state r' ctx))
+  (recorded_run ctx (cfgs ctx) g (mtus ctx) (SystemRefinement.reg_state r ctx)
+  (Isolation.frames_of ctx l) ++ see (SystemRefinement.reg_state r ctx)).
+Proof. exact C07_buffer_level_history. Qed.
+Print Assumptions C07_conservation_over_any_history_buffer_level.
+
+Theorem C07_no_duplicates_over_any_history_buffer_level :
+  forall (junk : N) (cfgs : N -> pcfg) (g : gcfg) (mtus : N -> N),
+  SystemRefinement.cfgs_nominal cfgs mtus ->
+  forall (l : list (N * list N)) (r : registry) (w : world) (bl : nat) (bb ctx : N),
+  Forall (SystemRefinement.frame_len cfgs) l ->
+  BlockSafe.ledger_reg bl bb r w ->
+  nodupb (see (SystemRefinement.reg_state r ctx)) = true ->
+  exists (r' : registry) (w' : world),
+  BlockSafe.run_frames no_fail no_fail junk cfgs g r (SystemRefinement.as_fops l) w = Ok r' w' /\
+  nodupb (see (SystemRefinement.reg_state r' ctx)) = true.
+Proof. exact C07_buffer_level_history_nodup. Qed.
+Print Assumptions C07_no_duplicates_over_any_history_buffer_level.
